@@ -183,6 +183,86 @@ def reference(func, env, res):
     return None
 
 
+def extra_cases(rng, scale):
+    """library functions whose textbook definition is written out here (no model request): folds with non-commutative functions,
+    filter / map_list / count / any / all / unique on int lists, range in its one-, two- and three-argument forms, interval"""
+    out = []
+    big = [2 ** 64, -2 ** 64 + 1, 2 ** 80]
+
+    def ints(maxlen=7, lo=0):
+        return ('l', tuple(('i', rng.choice(big) if rng.random() < 0.08 else rng.randint(-9, 9)) for _ in range(rng.randint(lo, maxlen))))
+    for _ in range(max(1, int(1500 * scale))):
+        a = ints(lo=1)
+        out.append(('x_reduce_sub', None, "reduce(a, sub)", {'a': a}))
+        out.append(('x_reduce_digits', None, "reduce(a, fn(acc, x) 10 * acc + x)", {'a': a}))
+        out.append(('x_reduce_pair', None, "reduce(a, fn(acc, x) [acc, x])", {'a': a}))
+        out.append(('x_reduce_str', None, "reduce(map_list(a, string), fn(acc, x) acc + '|' + x)", {'a': a}))
+        a = ints()
+        out.append(('x_filter_pos', None, "filter(a, fn(x) x > 0)", {'a': a}))
+        out.append(('x_map_sq', None, "map_list(a, fn(x) x * x - 1)", {'a': a}))
+        out.append(('x_count', None, "count(a, x)", {'a': a, 'x': ('i', rng.randint(-3, 3))}))
+        out.append(('x_any_pos', None, "any(a, fn(x) x > 5)", {'a': a}))
+        out.append(('x_all_pos', None, "all(a, fn(x) x > -5)", {'a': a}))
+        out.append(('x_unique', None, "unique(a)", {'a': a}))
+    for a in range(-5, 6):
+        for b in range(-5, 6):
+            out.append(('x_interval', None, "interval(a, b)", {'a': ('i', a), 'b': ('i', b)}))
+            out.append(('x_range2', None, "range(a, b)", {'a': ('i', a), 'b': ('i', b)}))
+            for st in (-3, -1, 1, 2, 4):
+                out.append(('x_range3', None, "range(a, b, s)", {'a': ('i', a), 'b': ('i', b), 's': ('i', st)}))
+        out.append(('x_range1', None, "range(a)", {'a': ('i', a)}))
+    return out
+
+
+def extra_reference(func, env, res):
+    """the textbook definition for the extra cases; None = agrees"""
+    if res[0] != 'ok':
+        return f"ends with {res}"
+    v = res[1]
+    a = [x[1] for x in env['a'][1]] if env['a'][0] == 'l' else env['a'][1]
+
+    def form(x):
+        if isinstance(x, bool):
+            return ('b', x)
+        if isinstance(x, int):
+            return ('i', x)
+        if isinstance(x, str):
+            return ('s', x)
+        return ('l', tuple(form(y) for y in x))
+    import functools
+    if func == 'x_reduce_sub':
+        want = functools.reduce(lambda acc, x: acc - x, a)
+    elif func == 'x_reduce_digits':
+        want = functools.reduce(lambda acc, x: 10 * acc + x, a)
+    elif func == 'x_reduce_pair':
+        want = functools.reduce(lambda acc, x: [acc, x], a)
+    elif func == 'x_reduce_str':
+        want = functools.reduce(lambda acc, x: acc + '|' + x, [str(x) for x in a])
+    elif func == 'x_filter_pos':
+        want = [x for x in a if x > 0]
+    elif func == 'x_map_sq':
+        want = [x * x - 1 for x in a]
+    elif func == 'x_count':
+        want = sum(1 for x in a if x == env['x'][1])
+    elif func == 'x_any_pos':
+        want = any(x > 5 for x in a)
+    elif func == 'x_all_pos':
+        want = all(x > -5 for x in a)
+    elif func == 'x_unique':
+        want = list(dict.fromkeys(a))
+    elif func == 'x_interval':
+        want = list(range(a, env['b'][1] + 1))
+    elif func == 'x_range2':
+        want = list(range(a, env['b'][1]))
+    elif func == 'x_range3':
+        want = list(range(a, env['b'][1], env['s'][1]))
+    elif func == 'x_range1':
+        want = list(range(a))
+    else:
+        return None
+    return None if v == form(want) else f"the definition gives {form(want)}"
+
+
 def unform(x):
     """enum_form value -> abstract value"""
     t = x[0]
@@ -201,14 +281,16 @@ def run(ctx):
     ctx.rule = ("random lists and sets of length <= 8 over ints (incl. beyond 2^64), decimals and strings with duplicates and 1 versus 1.0 "
                 "through union/intersection/diff/symmetric_diff/unique/reverse/flatten/zip/enumerate/range/interval/chunks/pairs/grouped/"
                 "filter/map_list/reduce/sum/prod/count/any/all; all permutations of lists of length <= 5 through mean/median*/min/max; int "
-                "arguments up to 2^80 through pow/gcd/lcm/abs/sign/div/mod; all 32-bit boundary words x shift counts -40..40 through the "
+                "arguments up to 2^80 through pow/gcd/lcm/abs/sign/div/mod; folds with non-commutative functions, filter/map_list/count/any/all/unique and range/interval against their definitions written out;  all 32-bit boundary words x shift counts -40..40 through the "
                 "bitwise functions; each case in an interpreter with the legacy globals and in one that requires the modules (same answer demanded); checked against the defining laws (host ints, set theory, permutation invariance) and the Lean model; "
                 "non-trivial = every case (duplicates, mixed 1/1.0 and huge ints dominate)")
+    n_model = len(cases)
+    cases = cases + extra_cases(ctx.rng, scale)
     chunks = [cases[i:i + 1500] for i in range(0, len(cases), 1500)]
     with mp.Pool(16) as pool:
         real = [r for res in pool.map(_worker, [(True, c) for c in chunks]) for r in res]
         plain = [r for res in pool.map(_worker, [(False, c) for c in chunks]) for r in res]
-    resp = core.run_driver([c[1] for c in cases]) if ctx.build.ok else [None] * len(cases)
+    resp = (core.run_driver([c[1] for c in cases[:n_model]]) if ctx.build.ok else [None] * n_model) + [None] * (len(cases) - n_model)
     perm_groups = collections.defaultdict(set)
     for (func, req, src, env), r, m, r2 in zip(cases, real, resp, plain):
         ctx.seen((func, req), nontrivial=True)
@@ -219,7 +301,7 @@ def run(ctx):
         if r[0] in ('host', 'timeout', 'notdata'):
             ctx.violation("oracle", f"`{src}` with {rp['vars']} ends with {r}", rp)
             continue
-        why = reference(func, env, r)
+        why = extra_reference(func, env, r) if func.startswith("x_") else reference(func, env, r)
         if why:
             ctx.violation("oracle", f"`{src}` with {rp['vars']} gives {r[1]}: {why}", rp)
         if func in ('mean', 'median', 'median_low', 'median_high', 'min', 'max') and 'a' in env and env['a'][0] == 'l':
